@@ -607,6 +607,10 @@ class RelativeJSONPointer:
             parts.extend(self.pointer.parts)
         else:
             assert self.pointer == "#"
+            if not parts:
+                raise RelativeJSONPointerIndexError(
+                    "the root of the document has no name or index"
+                )
             parts[-1] = f"#{parts[-1]}"
 
         return JSONPointer.from_parts(
